@@ -177,6 +177,32 @@ func (t *txnSource) txn(filler int) *gen.Txn {
 	return gen.GenTxn(t.rng, t.next, t.model, gen.TxnOpts{Keys: t.keys, MaxRefs: 2, Journal: true, DelP: 0.25, LogTombP: 0, Filler: filler})
 }
 
+// delAll deletes every key of the alphabet (existing or not); other creates refs outside
+// the alphabet: a deletion followed by additions that do not re-create what was deleted.
+func (t *txnSource) delAll() *gen.Txn {
+	t.next++
+	tx := &gen.Txn{ID: t.next}
+	for _, k := range t.keys {
+		tx.Refs = append(tx.Refs, gen.Ref{Name: k, Kind: gen.KDel})
+	}
+	t.journal(tx)
+	return tx
+}
+
+func (t *txnSource) other() *gen.Txn {
+	t.next++
+	tx := &gen.Txn{ID: t.next, Refs: []gen.Ref{{Name: fmt.Sprintf("refs/other/%04d", t.next), Kind: gen.KVal, Value: gen.IDHash(t.next, 1, t.model.HS)}}}
+	t.journal(tx)
+	return tx
+}
+
+func (t *txnSource) journal(tx *gen.Txn) {
+	v := gen.IDHash(tx.ID, 999, t.model.HS)
+	tx.Refs = append(tx.Refs, gen.Ref{Name: gen.JournalRef, Kind: gen.KVal, Value: v})
+	tx.Logs = append(tx.Logs, gen.Log{Name: gen.JournalRef, New: v, User: "j", Email: "j@x", Time: 1<<40 + uint64(tx.ID), Msg: fmt.Sprintf("t%d", tx.ID)})
+	gen.SortRefs(tx.Refs)
+}
+
 func (t *txnSource) bad() *gen.Txn {
 	t.next++
 	return &gen.Txn{ID: t.next, Refs: []gen.Ref{{Name: "refs/heads//bad", Kind: gen.KVal, Value: gen.IDHash(t.next, 0, t.model.HS)}}}
@@ -194,6 +220,10 @@ func (t *txnSource) mkCalls(desc string) []eng.Call {
 			out = append(out, eng.Call{Kind: "add", Txns: []*gen.Txn{t.txn(0)}})
 		case "addbig":
 			out = append(out, eng.Call{Kind: "add", Txns: []*gen.Txn{t.txn(40)}})
+		case "adddel":
+			out = append(out, eng.Call{Kind: "add", Txns: []*gen.Txn{t.delAll()}})
+		case "addother":
+			out = append(out, eng.Call{Kind: "add", Txns: []*gen.Txn{t.other()}})
 		case "addmulti":
 			out = append(out, eng.Call{Kind: "addmulti", Txns: []*gen.Txn{t.txn(0), t.txn(0)}})
 		case "addbad":
